@@ -232,7 +232,15 @@ impl CompressionCodecState {
 							input = &input[written..];
 							self.output_vec.resize(self.output_vec.len() * 2, 0);
 						}
-						xz2::stream::Status::Ok | xz2::stream::Status::GetCheck => {
+						xz2::stream::Status::Ok => {
+							// This is what liblzma answers to `Finish` as long as the stream is
+							// not complete: there is more to write once there is room for it.
+							input = &input[written..];
+							if compress.total_out() as usize == self.output_vec.len() {
+								self.output_vec.resize(self.output_vec.len() * 2, 0);
+							}
+						}
+						xz2::stream::Status::GetCheck => {
 							return Err(error(
 								"Xz",
 								&format_args!("got unexpected status from xz2: {status:?}"),
